@@ -865,16 +865,12 @@ fn revert_case(nbase: usize, nlog: usize, ncur: usize, idx: usize, prefix: bool)
         }
         j += 1;
     }
-    // built with vec![..] (one typed boxed array), see revert.rs
-    let log = if nlog == 0 {
-        Vec::new()
-    } else if nlog == 1 {
-        vec![mk_log_entry(us[0])]
-    } else if nlog == 2 {
-        vec![mk_log_entry(us[0]), mk_log_entry(us[1])]
-    } else {
-        vec![mk_log_entry(us[0]), mk_log_entry(us[1]), mk_log_entry(us[2])]
-    };
+    // The fact log lives in a STACK buffer (Vec::from_raw_parts over a local array; revert only
+    // truncates it, the session is forgotten at the end): when the real code clones log entries
+    // it reads back from a HEAP vector, CBMC loses their lengths and the clones become
+    // symbolic-size allocations (measured: > 14 GB). See revert.rs.
+    let mut lbuf = [mk_log_entry(us[0]), mk_log_entry(us[1]), mk_log_entry(us[2])];
+    let log = unsafe { Vec::from_raw_parts(lbuf.as_mut_ptr(), nlog, 3) };
     let mut s = new_session(base, log, cur);
     // a live query iterator keeps the Arc shared: revert must then build a fresh map
     let shared: bool = kani::any();
@@ -910,6 +906,7 @@ fn revert_case(nbase: usize, nlog: usize, ncur: usize, idx: usize, prefix: bool)
     }
     core::mem::forget(keep);
     core::mem::forget(s);
+    core::mem::forget(lbuf);
     listed
 }
 
@@ -923,7 +920,17 @@ fn session_op_case(nbase: usize, nlog: usize, nscript: usize, receive: bool, pre
     let mut listed = (0usize, 0u8);
     let base = any_base(nbase);
     let mut lvl: Level = [None; NC];
-    let (log, cur, _us) = any_log_state(nlog, &mut lvl);
+    let (log0, cur, us) = any_log_state(nlog, &mut lvl);
+    core::mem::forget(log0);
+    // stack-backed fact log (see revert_case) with room for the writes of the operation
+    let mut lbuf = [
+        mk_log_entry(us[0]),
+        mk_log_entry(Upd { c: 0, v: None }),
+        mk_log_entry(Upd { c: 0, v: None }),
+        mk_log_entry(Upd { c: 0, v: None }),
+    ];
+    assert!(nlog <= 1 && nlog + nscript <= 4);
+    let log = unsafe { Vec::from_raw_parts(lbuf.as_mut_ptr(), nlog, 4) };
     let mut want = overlay(&flat_base(&base), &lvl);
     let mut s = new_session(base, log, cur);
     let script = any_script(nscript);
@@ -985,6 +992,7 @@ fn session_op_case(nbase: usize, nlog: usize, nscript: usize, receive: bool, pre
         }
     }
     core::mem::forget(s);
+    core::mem::forget(lbuf);
     listed
 }
 
